@@ -1034,7 +1034,7 @@ class ByConstituency:
             # select candidates that passed national level conditions
             nat_agg = votelib.convert.VoteTotals()
             nat_votes = nat_agg.convert(votes)
-            if accepts_seats(self.preselector):
+            if accepts_seats(self.preselector) and n_seats is not None:
                 return self.preselector.evaluate(nat_votes, n_seats)
             else:
                 return self.preselector.evaluate(nat_votes)
